@@ -30,10 +30,28 @@ theorem Src.short {s : Sys} {L : List (Acct × Node)} {x : Acct} {cons rest : Li
   · simp only [hi, hslotc, and_self, if_true] at h1 ⊢; omega
   · simp only [hi, false_and, if_false] at h1 ⊢; omega
 
-theorem onIqResult_sender (hw : WFConfig accts groups) {s : Sys} {a : Acct} {hd : Stanza} {rest : List Stanza} {iq : Nat}
+theorem Src.room {s : Sys} {L : List (Acct × Node)} {x : Acct} {cons rest : List Stanza} {c1 : Client} {n : Node} {who : Option Acct}
+    (hs : Src accts groups L (view s) x cons rest c1 n who) (hslotc : who = none ∨ isGroupDest n.dest = false)
+    (hq : ∀ m ∈ c1.sentQueue, (x, m) ∈ s.submitted) (hn : (x, n) ∈ s.submitted) :
+    c1.sentQueue.length < 100 ∨ 100 < (view s).submitted.length := by
+  by_cases hlen : s.submitted.length ≤ 100
+  · exact Or.inl (hs.short hslotc hq hn hlen)
+  · right
+    show 100 < s.submitted.length
+    omega
+
+theorem room_q {c1 : Client} {q : List Node} {P : Prop} (hroom : c1.sentQueue.length < 100 ∨ P)
+    (hq1 : ∀ m ∈ c1.sentQueue, m ∈ q ∨ 100 ≤ c1.sentQueue.length) : ∀ m ∈ c1.sentQueue, m ∈ q ∨ P := by
+  intro m hm
+  rcases hq1 m hm with h1 | h1
+  · exact Or.inl h1
+  · rcases hroom with h2 | h2
+    · omega
+    · exact Or.inr h2
+
+theorem onIqResult_sender' (hw : WFConfig accts groups) {s : Sys} {a : Acct} {hd : Stanza} {rest : List Stanza} {iq : Nat}
     {got ms : List Acct} {k0 : Cont} {n : Node} {who : Option Acct}
     (hA : AInv accts groups (abs s)) (hT : TV ex accts groups s.submitted (view s)) (ha : a ∈ accts)
-    (hlen : s.submitted.length ≤ 100)
     (hq : queueOf s.outbound a = hd :: rest) (hiq : stanzaIq hd = some iq)
     (hplain : ∀ id r, downTok id hd = 0 ∧ nOf id hd = 0 ∧ rcptOut id r hd = 0 ∧ retryDownTok id r hd = 0)
     (hk0 : lookup (getClient s a).iqReg iq = some k0) (hnode : contNode k0 = some (n, who))
@@ -92,7 +110,8 @@ theorem onIqResult_sender (hw : WFConfig accts groups) {s : Sys} {a : Acct} {hd 
       have hsrc := Src.ofCont (c1 := c1) hA hT ha hq hiq hplain hk0 rfl hsame hreg1
       obtain ⟨se, hse⟩ := Option.isSome_iff_exists.mp (hsess1 b (by simp))
       have hacc1 : a ∈ (view s1).accounts := by rw [hv1]; exact hacc0
-      have hshort := hsrc.short (Or.inl rfl) (hsq c1 hsame) hnsub hlen
+      have hroom := hsrc.room (Or.inl rfl) (hsq c1 hsame) hnsub
+      obtain ⟨q, heq, hnq, hq1, hq2⟩ := enqueueSent_q c1 m
       have hctr : s1.nextCtr = (view s).nextCtr := by
         have : (view s1).nextCtr = (view s).nextCtr := by rw [hv1, hv0]; rfl
         exact this
@@ -104,8 +123,9 @@ theorem onIqResult_sender (hw : WFConfig accts groups) {s : Sys} {a : Acct} {hd 
         split <;> simp
       have hss := hsrc.toFirst hT (fun _ _ => Or.inl rfl) (Or.inl rfl) c1.ownSK _ ((view s).nextCtr + 1)
         (Nat.le_succ _) (fun _ h' => h') (fun g' hg' => by rw [hmd] at hg'; cases hg') hfm
+        q hnq (room_q hroom hq1) hq2
       refine finish_sender hn hT hss ?_
-      rw [view_sendToContact _ _ _ _ _ se hacc1 hse, hv1, hv0, enqueueSent_eq m hshort, hctr]
+      rw [view_sendToContact _ _ _ _ _ se hacc1 hse, hv1, hv0, heq, hctr]
       simp
   | keysForRetry m w cnt =>
     simp only [contNode, Option.some.injEq, Prod.mk.injEq] at hnode
@@ -140,7 +160,8 @@ theorem onIqResult_sender (hw : WFConfig accts groups) {s : Sys} {a : Acct} {hd 
       have hwb : w = b := by simpa [intendedG, hmd] using hwint
       subst hwb
       rw [if_pos (hsess1 w (by simp))]
-      have hshort := hsrc.short (Or.inr (by rw [hmd]; rfl)) (hsq c1 hsame) hnsub hlen
+      have hroom := hsrc.room (Or.inr (by rw [hmd]; rfl)) (hsq c1 hsame) hnsub
+      obtain ⟨q, heq, hnq, hq1, hq2⟩ := enqueueSent_q c1 m
       have hfm : FreshMsg (view s).nextCtr ((view s).nextCtr + 1) (.msg m.id m.dest none m.payload.isMedia
           [(none, { kind := if se.pendingPre then .pkmsg else .msg, sess := se.cur, ctr := s1.nextCtr,
                     plain := { skdm := none, content := some m.payload }, corrupt := false })] none) := by
@@ -151,8 +172,9 @@ theorem onIqResult_sender (hw : WFConfig accts groups) {s : Sys} {a : Acct} {hd 
           have : r = w := by simpa [intendedG, hmd] using hr
           subst this; exact Or.inr rfl) (Or.inr (by rw [hmd]; rfl)) c1.ownSK _ ((view s).nextCtr + 1)
         (Nat.le_succ _) (fun _ h' => h') (fun g' hg' => by rw [hmd] at hg'; cases hg') hfm
+        q hnq (room_q hroom hq1) hq2
       refine finish_sender hn hT hss ?_
-      rw [view_sendToContact _ _ _ _ _ se hacc1 hse, hv1, hv0, enqueueSent_eq m hshort, hctr]
+      rw [view_sendToContact _ _ _ _ _ se hacc1 hse, hv1, hv0, heq, hctr]
       simp
     | group g =>
       simp only [hmd]
@@ -178,7 +200,7 @@ theorem onIqResult_sender (hw : WFConfig accts groups) {s : Sys} {a : Acct} {hd 
       obtain ⟨gen, hgen⟩ := Option.isSome_iff_exists.mp hown
       simp only [hgen]
       obtain ⟨sk, ct, hview, hs1, hs2, hc1, hc2, hc3, hc4⟩ := view_sgws_retry s1 a c1 m g w cnt se hacc1 hshape hse
-      have hin : m ∈ c1.sentQueue := by
+      have hin : m ∈ c1.sentQueue ∨ 100 < (view s).submitted.length := by
         rw [hsame.sentQ]
         exact hT.retq a _ hmem0 m w cnt rfl (by rw [hmd]; rfl)
       have hfm : FreshMsg (view s).nextCtr ((view s).nextCtr + 1) (.msg m.id m.dest (some w) m.payload.isMedia [(none, ct)] none) :=
@@ -207,14 +229,16 @@ theorem onIqResult_sender (hw : WFConfig accts groups) {s : Sys} {a : Acct} {hd 
       split
       · obtain ⟨sk, l, kct, hview, hs1, hs2, hk1, hk2, hk3, hk4, hl, hlnd⟩ :=
           view_sgws_first s0 a { getClient s a with iqReg := erase (getClient s a).iqReg iq } m g (ms.filter (· != a)) hacc0
-        have hshort := hsrc.short (Or.inl rfl) (hsq _ hsame) hnsub hlen
+        have hroom := hsrc.room (Or.inl rfl) (hsq _ hsame) hnsub
+        obtain ⟨q, heq, hnq, hq1, hq2⟩ := enqueueSent_q { getClient s a with iqReg := erase (getClient s a).iqReg iq, ownSK := sk } m
         rw [hctr] at hk4 hl
         have hfm := freshMsg_group (id := m.id) (g := g) (im := m.payload.isMedia) hk1 (by rw [hk2]; rfl) hk3 hk4 hl hlnd
         have hss := hsrc.toFirst hT (fun _ _ => Or.inl rfl) (Or.inl rfl) sk (l ++ [(none, kct)])
           ((view s).nextCtr + (ms.filter (· != a)).length + 1)
           (by omega) hs2 (fun g' hg' => by rw [hmd] at hg'; cases hg'; exact hs1) (by rw [hmd]; exact hfm)
+          q hnq (room_q hroom hq1) hq2
         refine finish_sender hn hT hss ?_
-        rw [hview, hv0, enqueueSent_eq (c := { getClient s a with iqReg := erase (getClient s a).iqReg iq, ownSK := sk }) m hshort, hctr]
+        rw [hview, hv0, heq, hctr]
         simp
       · have hss := hsrc.toCont hT
           (.keysForGroup m (ms.filter (· != a)) ((ms.filter (· != a)).filter (fun j => (lookup (getClient s a).sessions j).isNone)))
@@ -251,15 +275,28 @@ theorem onIqResult_sender (hw : WFConfig accts groups) {s : Sys} {a : Acct} {hd 
         exact this
       obtain ⟨sk, l, kct, hview, hs1, hs2, hk1, hk2, hk3, hk4, hl, hlnd⟩ :=
         view_sgws_first s1 a c1 m g (all.filter (fun j => ok.contains j || !askd.contains j)) hacc1
-      have hshort := hsrc.short (Or.inl rfl) (hsq _ hsame) hnsub hlen
+      have hroom := hsrc.room (Or.inl rfl) (hsq _ hsame) hnsub
+      obtain ⟨q, heq, hnq, hq1, hq2⟩ := enqueueSent_q { c1 with ownSK := sk } m
       rw [hctr] at hk4 hl
       have hfm := freshMsg_group (id := m.id) (g := g) (im := m.payload.isMedia) hk1 (by rw [hk2]; rfl) hk3 hk4 hl hlnd
       have hss := hsrc.toFirst hT (fun _ _ => Or.inl rfl) (Or.inl rfl) sk (l ++ [(none, kct)])
         ((view s).nextCtr + (all.filter (fun j => ok.contains j || !askd.contains j)).length + 1)
         (by omega) hs2 (fun g' hg' => by rw [hmd] at hg'; cases hg'; exact hs1) (by rw [hmd]; exact hfm)
+        q hnq (room_q hroom hq1) hq2
       refine finish_sender hn hT hss ?_
-      rw [hview, hv1, hv0, enqueueSent_eq (c := { c1 with ownSK := sk }) m hshort, hctr]
+      rw [hview, hv1, hv0, heq, hctr]
       simp
+
+theorem onIqResult_sender (hw : WFConfig accts groups) {s : Sys} {a : Acct} {hd : Stanza} {rest : List Stanza} {iq : Nat}
+    {got ms : List Acct} {k0 : Cont} {n : Node} {who : Option Acct}
+    (hA : AInv accts groups (abs s)) (hT : TV ex accts groups s.submitted (view s)) (ha : a ∈ accts)
+    (_hlen : s.submitted.length ≤ 100)
+    (hq : queueOf s.outbound a = hd :: rest) (hiq : stanzaIq hd = some iq)
+    (hplain : ∀ id r, downTok id hd = 0 ∧ nOf id hd = 0 ∧ rcptOut id r hd = 0 ∧ retryDownTok id r hd = 0)
+    (hk0 : lookup (getClient s a).iqReg iq = some k0) (hnode : contNode k0 = some (n, who))
+    (hgot : ∀ j, j ∈ asked k0 → j ∈ got) :
+    TV ex accts groups s.submitted (view (onIqResult { s with outbound := insert s.outbound a rest } a iq got ms)) :=
+  onIqResult_sender' hw hA hT ha hq hiq hplain hk0 hnode hgot
 
 end
 
